@@ -226,7 +226,76 @@ def main():
                             {'kind': 'spec', 'files': {'x.h': open(os.path.join(d, 'x.h')).read(), 'm.h': open(os.path.join(d, 'm.h')).read()}, 'cmd': 'interrogate -promiscuous m.h'})
         else:
             ck.nontrivial('once%s|%s' % (a, c))
-    ck.cov['streams'] = {'paths': len(cases), 'include_trees': nB, 'once_spelling_pairs': len(spellings) ** 2}
+    # the same for a header that is NOT in the working directory: found through -I, through -S (angle form, also via a symlinked directory),
+    # and beside an includer that lives in a subdirectory
+    n_once2 = 0
+    for place in ('I', 'S', 'includer'):
+        d2 = os.path.join(wd, 'once_' + place)
+        os.makedirs(os.path.join(d2, 'inc', 'dd'))
+        os.makedirs(os.path.join(d2, 'deep'))
+        os.symlink('inc', os.path.join(d2, 'inclnk'))
+        os.symlink('.', os.path.join(d2, 'inc', 'lnk'))
+        once_text = '#pragma once\n#ifdef SEEN1\n#define SEEN2\n#endif\n#define SEEN1\n'
+        if place == 'includer':
+            open(os.path.join(d2, 'deep', 'x.h'), 'w').write(once_text)
+            sp = ['x.h', './x.h', '../deep/x.h', '../deep//x.h']
+            opts2 = []
+        else:
+            open(os.path.join(d2, 'inc', 'x.h'), 'w').write(once_text)
+            sp = ['x.h', './x.h', 'dd/../x.h', 'lnk/x.h', './/x.h']
+            opts2 = ['-I', 'inc'] if place == 'I' else ['-S', 'inc', '-S', 'inclnk']
+        for a, c in itertools.product(sp, repeat=2):
+            q1, q2 = ('<', '>') if place == 'S' else ('"', '"')
+            tail = '#ifdef SEEN2\nstruct P { int arr[2]; };\n#else\nstruct P { int arr[1]; };\n#endif\n'
+            if place == 'includer':
+                open(os.path.join(d2, 'deep', 'a.h'), 'w').write('#include "%s"\n#include "%s"\n' % (a, c))
+                open(os.path.join(d2, 'm.h'), 'w').write('#include "deep/a.h"\n' + tail)
+            else:
+                open(os.path.join(d2, 'm.h'), 'w').write('#include %s%s%s\n#include %s%s%s\n' % (q1, a, q2, q1, c, q2) + tail)
+            p = vlib.sh([b['interrogate'], '-DCPPPARSER', '-oc', 'o.cxx', '-od', 'o.in', '-module', 'm', '-library', 'l', '-promiscuous'] + opts2 + ['m.h'], cwd=d2)
+            ck.count()
+            ck.dist('once:' + place)
+            n_once2 += 1
+            if p.returncode != 0:
+                ck.spec_failure('once:not-in-cwd', 'interrogate fails on a #pragma once header found through %s and included as %s and %s: %s' % (place, a, c, p.stdout[-150:]),
+                                {'kind': 'spec', 'place': place, 'files': {'m.h': open(os.path.join(d2, 'm.h')).read()}, 'cmd': 'interrogate -promiscuous %s m.h' % ' '.join(opts2)})
+                continue
+            db = dbfile.load(os.path.join(d2, 'o.in'), b['src'])
+            sizes = [t['array_size'] for t in db['types'].values() if t['array_size'] is not None]
+            if sizes != [1]:
+                ck.spec_failure('once:%s' % ('symlink' if 'lnk' in a + c else 'not-in-cwd'), 'a #pragma once file found through %s and included as "%s" and "%s" contributed twice' % (place, a, c),
+                                {'kind': 'spec', 'place': place, 'files': {'m.h': open(os.path.join(d2, 'm.h')).read()}, 'cmd': 'interrogate -promiscuous %s m.h' % ' '.join(opts2)})
+            else:
+                ck.nontrivial('once2%s%s|%s' % (place, a, c))
+    # ---------------- stream D: ownership of files named on the command line, with and without -srcdir ----------------------------------
+    d3 = os.path.join(wd, 'named')
+    os.makedirs(os.path.join(d3, 'src', 'sub'))
+    open(os.path.join(d3, 'src', 'a.h'), 'w').write('#ifndef A_H\n#define A_H\n#include "b.h"\nclass Alpha {\n__published:\n  int fa();\n};\n#endif\n')
+    open(os.path.join(d3, 'src', 'sub', 'b.h'), 'w').write('#ifndef B_H\n#define B_H\nclass Beta {\n__published:\n  int fb();\n};\n#endif\n')
+    src_abs = os.path.join(d3, 'src')
+    named_cases = [
+        ('no -srcdir, both files named', src_abs, ['-I', os.path.join(src_abs, 'sub'), 'a.h', 'sub/b.h'], {'Alpha', 'Beta'}),
+        ('-srcdir, only a.h named', d3, ['-srcdir', 'src', '-I', 'src/sub', 'a.h'], {'Alpha'}),
+        ('-srcdir, both files named', d3, ['-srcdir', 'src', '-I', 'src/sub', 'a.h', 'sub/b.h'], {'Alpha', 'Beta'}),
+        ('-I absolute, -srcdir absolute, both named', d3, ['-I', os.path.join(src_abs, 'sub'), '-srcdir', src_abs, 'a.h', 'sub/b.h'], {'Alpha', 'Beta'}),
+        ('-srcdir, both named, later file first', d3, ['-srcdir', 'src', '-I', 'src/sub', 'sub/b.h', 'a.h'], {'Alpha', 'Beta'}),
+    ]
+    for label, cwd_, args, want in named_cases:
+        oc, od = os.path.join(d3, 'o.cxx'), os.path.join(d3, 'o.in')
+        p = vlib.sh([b['interrogate'], '-oc', oc, '-od', od, '-module', 'm', '-library', 'l', '-c', '-fnames'] + args, cwd=cwd_)
+        ck.count()
+        ck.dist('named-files')
+        rp = {'kind': 'spec', 'case': label, 'cmd': 'interrogate -c -fnames ' + ' '.join(args), 'files': {'src/a.h': open(os.path.join(d3, 'src', 'a.h')).read(), 'src/sub/b.h': open(os.path.join(d3, 'src', 'sub', 'b.h')).read()}}
+        if p.returncode != 0:
+            ck.spec_failure('owner:run', 'interrogate fails (%s): %s' % (label, p.stdout[-200:]), rp)
+            continue
+        db = dbfile.load(od, b['src'])
+        got = {t['name'] for t in db['types'].values() if t['name'] in ('Alpha', 'Beta') and t['methods']}
+        if got != want:
+            ck.spec_failure('owner:named-file', '%s: classes exported with their methods %s, expected %s (a file named on the command line is the user\'s own)' % (label, sorted(got), sorted(want)), rp)
+        else:
+            ck.nontrivial('named' + label)
+    ck.cov['streams'] = {'paths': len(cases), 'include_trees': nB, 'once_spelling_pairs': len(spellings) ** 2, 'once_pairs_outside_cwd': n_once2, 'named_file_cases': len(named_cases)}
     ck.cov['exhaustive_paths_up_to_length'] = maxlen
     ck.cov['rule'] = ('(A) every path over the component alphabet {., .., a, b} up to length %d, absolute and relative, plus spellings with repeated/trailing slashes: '
                       'Filename::standardize vs the model, idempotence, and the kernel (os.stat on a real tree without symlinks) as oracle for what a path denotes; '
